@@ -8,7 +8,7 @@ import DtailModel.Generated.Code
 import DtailModel.Lemmas.GoRT
 import DtailModel.Lemmas.NoPanic
 import DtailModel.Lemmas.OptionOrder
-import DtailModel.Lemmas.GenQuery
+import DtailModel.Lemmas.LoopRules
 set_option autoImplicit false
 namespace Dtail.GenOptions
 open Dtail Dtail.Go Dtail.GenQuery
